@@ -124,6 +124,9 @@ def _check_main(ctx, rep: Report):
 
 def check(ctx, rep):
     _check_main(ctx, rep)
+    from . import metarules, r5rules
+    metarules.for_class_rule(ctx, rep, "C01.META", ("dnc",))
+    r5rules.mutate_value_inplace_sites(ctx, rep, "C01.MV")
     # the caller's collection is only kept (and then prepared in place: known finding F-C01-1) when it already conforms;
     # anything else is rebuilt into a new container
     from .c04 import prepare_new_rule
